@@ -269,3 +269,16 @@ func (w *VerifWorld) SetLimits(req, rsp int) {
 	EngineGlobal.cCodec.MsgMaxLength = req
 	EngineGlobal.sCodec.MsgMaxLength = rsp
 }
+
+// VerifClearSlots makes [lo,hi] unowned.
+func VerifClearSlots(lo, hi int) {
+	for i := lo; i <= hi; i++ {
+		EngineGlobal.Slots2Node.Set(int32(i), nil)
+	}
+}
+
+// VerifBan marks a pool as banned for a long time (replica considered unhealthy).
+func VerifBan(addr string) {
+	p := EngineGlobal.ProxyPool[addr]
+	p.AutoBanFlag = true
+}
